@@ -47,7 +47,7 @@ class DispersionMeasure(u.SpecificTypeQuantity):
         tf_args = (coeff, N, dt, center_freq, ref_freq)
 
         if use_dask:
-            delayed_tf = dask.delayed(_transfer_function, pure=True)
+            delayed_tf = dask.delayed(_transfer_function)
             chirp = da.from_delayed(
                 delayed_tf(*tf_args), dtype=np.complex64, shape=(N,)
             )
